@@ -172,11 +172,11 @@ pub fn replay(ctx: &Ctx, case: &Value) {
 /// (c) adversarial names over small trees, as one document and split into two
 fn names_part(ctx: &Ctx) {
     use super::names::*;
-    let pool = pool(&["degenerate", "std"]);
+    let pool = pool(&[]);
     let k = ctx.tier.pick(2, 3);
     let params = ctx.tier.pick(
-        TreeParams { min_nodes: 1, max_nodes: 3, max_decorated: 1, root_from_subset: false },
-        TreeParams { min_nodes: 1, max_nodes: 3, max_decorated: 1, root_from_subset: false },
+        TreeParams { min_nodes: 1, max_nodes: 3, max_decorated: 1, root_from_subset: false, shard: (0, 1) },
+        TreeParams { min_nodes: 1, max_nodes: 3, max_decorated: 1, root_from_subset: false, shard: (0, 1) },
     );
     let subs = subsets(pool.len(), k);
     let res = par_for(
